@@ -39,6 +39,8 @@ type spec struct {
 	Full   bool       `json:"full,omitempty"`   // ws listen: the whole list of foreign subprotocol offers
 	Cuts   []cutSpec  `json:"cuts,omitempty"`   // cut: streams that end inside a frame, one connection each
 	Idle   []idleSpec `json:"idle,omitempty"`   // slowhs: connections that are part-way through the handshake when the next peer arrives
+	Over   []overSpec `json:"over,omitempty"`   // over: announced lengths above the receive limit, one connection each
+	MaxRx  int        `json:"maxrx,omitempty"`  // over: OptionMaxRecvSize set on the socket before its end point is made (0: default)
 }
 
 func TestMain(m *testing.M) { hx.Main(m) }
@@ -193,6 +195,8 @@ func TestC15(t *testing.T) {
 	// (appended last: the cases above keep their indices and specs)
 	cases = append(cases, genCutCases(rnd, r.Pick(3, 20), r.Pick(3, 5))...)
 	cases = append(cases, genSlowHsCases(rnd, r.Pick(2, 12))...)
+	// lengths of which the upper bytes count
+	cases = append(cases, genOverCases(rnd, r.Pick(2, 16), r.Pick(3, 5))...)
 
 	r.Run(cases, func(c *mon.Case) {
 		sp := c.Spec.(spec)
@@ -221,6 +225,8 @@ func TestC15(t *testing.T) {
 			caseCut(c, sp)
 		case "slowhs":
 			caseSlowHs(c, sp)
+		case "over":
+			caseOver(c, sp)
 		}
 		hx.LedgerCheck(c)
 	})
@@ -386,6 +392,11 @@ func newRig(c *mon.Case, sp spec) *rig {
 	g.srvTLS, g.cliTLS = hx.TlsConfigs()
 	g.sock = hx.MustSock(c, sp.Sock)
 	g.pw = watch(g.sock)
+	if sp.MaxRx > 0 {
+		if err := g.sock.SetOption(mangos.OptionMaxRecvSize, sp.MaxRx); err != nil {
+			panic(envError{err})
+		}
+	}
 	c.Cleanup(func() {
 		for _, cn := range g.conns {
 			cn.Close()
